@@ -410,9 +410,9 @@ theorem unquoted_spec (cfg : Cfg) (fuel : Nat) (x : S) :
 /-! ## `StringBuilder::save` -/
 
 /-- the document with an allocator that never fails (a device to reuse the lemmas about `Doc.saveString`) -/
-def calm (d : Doc) : Doc := { d with pl := { d.pl with failAt := [], failFrom := none } }
+def calm (d : Doc) (mx : Nat) : Doc := { d with pl := { d.pl with failAt := [], failFrom := none }, maxStrLen := mx }
 
-theorem calm_failsAt (d : Doc) (n : Nat) : (calm d).pl.failsAt n = false := rfl
+theorem calm_failsAt (d : Doc) (mx n : Nat) : (calm d mx).pl.failsAt n = false := rfl
 
 /-- effect of `save`: node `n` gained a reference (or was created with one); nothing else but allocator traffic -/
 structure SaveOp (x : S) (bytes : List Byte) (n : Nat) (x' : S) : Prop where
@@ -444,24 +444,24 @@ theorem save_eq_new {x : S} {bytes : List Byte} (hf : x.d.strings.find? (·.byte
 
 /-- `save` through `saveString` on the calm document -/
 theorem save_via (x : S) (bytes : List Byte) (n : Nat) (x' : S) (d1 : Doc)
-    (hsv : (calm x.d).saveString bytes = (some n, d1)) (hstr : d1.strings = x'.d.strings)
+    (hsv : (calm x.d bytes.length).saveString bytes = (some n, d1)) (hstr : d1.strings = x'.d.strings)
     (hnn : d1.nextNode = x'.d.nextNode) :
     (∀ rs, StrOK x.d rs → StrOK x'.d (n :: rs)) ∧
     (∀ rs, StrOK x.d rs → ∀ m ∈ rs, x'.d.strBytes m = x.d.strBytes m) ∧
     (∀ rs, StrOK x.d rs → x'.d.strBytes n = bytes) := by
-  have hc : ∀ rs, StrOK x.d rs → StrOK (calm x.d) rs := fun rs hs => StrOK_congr (d := x.d) (d' := calm x.d) rfl rfl hs
+  have hc : ∀ rs, StrOK x.d rs → StrOK (calm x.d bytes.length) rs := fun rs hs => StrOK_congr (d := x.d) (d' := calm x.d bytes.length) rfl rfl hs
   refine ⟨fun rs hs => StrOK_congr (d := d1) hstr.symm hnn.symm (saveString_strOK (hc rs hs) hsv), ?_, ?_⟩
   · intro rs hs m hm
-    obtain ⟨_, _, _, _, hkeep, _⟩ := saveString_spec (d := calm x.d) (hc rs hs).ids_nodup (hc rs hs).ids_lt hsv
+    obtain ⟨_, _, _, _, hkeep, _⟩ := saveString_spec (d := calm x.d bytes.length) (hc rs hs).ids_nodup (hc rs hs).ids_lt hsv
     rw [strBytes_of_strings hstr.symm, hkeep m (hs.present m hm)]; rfl
   · intro rs hs
-    obtain ⟨_, _, _, hb, _⟩ := saveString_spec (d := calm x.d) (hc rs hs).ids_nodup (hc rs hs).ids_lt hsv
+    obtain ⟨_, _, _, hb, _⟩ := saveString_spec (d := calm x.d bytes.length) (hc rs hs).ids_nodup (hc rs hs).ids_lt hsv
     rw [strBytes_of_strings hstr.symm]; exact hb
 
 theorem save_spec (x : S) (bytes : List Byte) : SaveOp x bytes (save x bytes).1 (save x bytes).2 := by
   cases hf : x.d.strings.find? (·.bytes == bytes) with
   | some y =>
-    have hf' : (calm x.d).strings.find? (·.bytes == bytes) = some y := hf
+    have hf' : (calm x.d bytes.length).strings.find? (·.bytes == bytes) = some y := hf
     obtain ⟨a, b, c⟩ := save_via x bytes y.id (save x bytes).2 _ (saveString_found hf')
       (by rw [save_eq_found hf]; rfl) (by rw [save_eq_found hf]; rfl)
     rw [save_eq_found hf] at a b c ⊢
@@ -470,9 +470,9 @@ theorem save_spec (x : S) (bytes : List Byte) : SaveOp x bytes (save x bytes).1 
     unfold LB at h ⊢
     simp only [List.length_map]; exact h
   | none =>
-    have hf' : (calm x.d).strings.find? (·.bytes == bytes) = none := hf
+    have hf' : (calm x.d bytes.length).strings.find? (·.bytes == bytes) = none := hf
     have hn := realloc_net x.d.pl (bytes.length + x.d.strOverhead) false
-    have hsv := saveString_new hf'
+    have hsv := saveString_short hf' (Nat.le_refl _)
     rw [calm_failsAt] at hsv
     simp only [Bool.false_eq_true, if_false] at hsv
     obtain ⟨a, b, c⟩ := save_via x bytes x.d.nextNode (save x bytes).2 _ hsv
